@@ -178,6 +178,9 @@ func main() {
 	go117 := []string{"-go", "1.17"}
 	ref117 := mk("ref117", 16, 0, []string{"./..."}, "json", false)
 	ref117.Args = go117
+	if *ntraced < *nsame {
+		ref117.Trace, nt.Trace = "", ""
+	}
 	for i := 0; i < *n117; i++ {
 		r := mk("same117", gmps[(i+1)%len(gmps)], 1+rnd.Uint64()%1000000, []string{"./..."}, "json", false)
 		if i%2 == 1 {
